@@ -67,6 +67,8 @@ type TermStore struct {
 	vars  []*Term
 	ufs   map[string]string // name -> declaration
 	ufOrd []string
+	ufApps []*Term // every UF application created (for model queries)
+	evalFail bool  // set by Eval when a UF application has no value in env
 }
 
 func NewTermStore() *TermStore {
@@ -140,7 +142,12 @@ func (s *TermStore) UF(name string, w int, args ...*Term) *Term {
 		s.ufs[name] = sb.String()
 		s.ufOrd = append(s.ufOrd, name)
 	}
-	return s.mk(OpUF, w, 0, name, args...)
+	n := len(s.tab)
+	t := s.mk(OpUF, w, 0, name, args...)
+	if len(s.tab) != n {
+		s.ufApps = append(s.ufApps, t)
+	}
+	return t
 }
 
 func sortName(w int) string {
@@ -218,6 +225,9 @@ func (s *TermStore) Eq(a, b *Term) *Term {
 		if isFalse(b) {
 			return s.Not(a)
 		}
+	}
+	if a.Op == OpBvNot && b.Op == OpBvNot { // ^x = ^y  <=>  x = y
+		return s.Eq(a.Args[0], b.Args[0])
 	}
 	if a.ID > b.ID {
 		a, b = b, a
@@ -362,6 +372,9 @@ func (s *TermStore) Bin(op Op, a, b *Term) *Term {
 		if a == b {
 			return s.Const(w, 0)
 		}
+		if a.Op == OpConst && a.C == mask(w) { // all-ones - x = ^x (math.MaxUint64-ts in KeyWithTs/ParseTs)
+			return s.BvNot(b)
+		}
 	case OpBvMul:
 		if a.Op == OpConst && a.C == 1 {
 			return b
@@ -433,6 +446,9 @@ func (s *TermStore) Cmp(op Op, a, b *Term) *Term {
 	if op == OpUlt && b.Op == OpConst && b.C == 0 {
 		return s.Bool(false)
 	}
+	if (op == OpUlt || op == OpUle) && a.Op == OpBvNot && b.Op == OpBvNot { // ^x < ^y  <=>  y < x
+		return s.Cmp(op, b.Args[0], a.Args[0])
+	}
 	if op == OpUle && a.Op == OpConst && a.C == 0 {
 		return s.Bool(true)
 	}
@@ -446,6 +462,9 @@ func (s *TermStore) Cmp(op Op, a, b *Term) *Term {
 func (s *TermStore) BvNot(a *Term) *Term {
 	if a.Op == OpConst {
 		return s.Const(a.W, ^a.C)
+	}
+	if a.Op == OpBvNot {
+		return a.Args[0]
 	}
 	return s.mk(OpBvNot, a.W, 0, "", a)
 }
@@ -486,6 +505,9 @@ func (s *TermStore) Extract(a *Term, hi, lo int) *Term {
 	if a.Op == OpExtract {
 		ilo := int(a.C & 0xff)
 		return s.Extract(a.Args[0], hi+ilo, lo+ilo)
+	}
+	if a.Op == OpBvNot { // (^x)[hi:lo] = ^(x[hi:lo])
+		return s.BvNot(s.Extract(a.Args[0], hi, lo))
 	}
 	// extract of low bits through bitwise ops / shifts of zext bytes: common in
 	// byte(x >> 8k) patterns after packing; push extract through or/and/xor.
@@ -549,6 +571,14 @@ func (s *TermStore) Concat(hi, lo *Term) *Term {
 	if hi.Op == OpConst && lo.Op == OpConst && w <= 64 {
 		return s.Const(w, hi.C<<uint(lo.W)|lo.C)
 	}
+	if hi.Op == OpBvNot && lo.Op == OpBvNot {
+		return s.BvNot(s.Concat(hi.Args[0], lo.Args[0]))
+	}
+	// adjacent slices of one term: x[h:m+1] ++ x[m:l] = x[h:l] (bytes of a packed integer re-joined)
+	if hi.Op == OpExtract && lo.Op == OpExtract && hi.Args[0] == lo.Args[0] &&
+		int(hi.C&0xff) == int(lo.C>>8)+1 {
+		return s.Extract(hi.Args[0], int(hi.C>>8), int(lo.C&0xff))
+	}
 	return s.mk(OpConcat, w, 0, "", hi, lo)
 }
 
@@ -600,7 +630,11 @@ func (s *TermStore) Eval(t *Term, env map[int]uint64, memo map[int]uint64) uint6
 		r = a(0)<<uint(t.Args[1].W) | a(1)
 	case OpUF:
 		// UF values are taken from env (filled from the solver's model by ID)
-		r = env[t.ID] & maskB(t.W)
+		v, ok := env[t.ID]
+		if !ok {
+			s.evalFail = true
+		}
+		r = v & maskB(t.W)
 	default:
 		r = evalBin(t.Op, t.W, a(0), a(1))
 	}
